@@ -199,6 +199,7 @@ type simRun struct {
 	odone bool // the origin's writes have been issued
 	stalled bool
 	kinds   map[string]int
+	pendRead bool // the event the poller holds carries IN and its read part has not been dispatched yet (model: prd)
 }
 
 var sfFile *os.File
@@ -251,10 +252,10 @@ func (r *simRun) realObs() []int {
 	k := r.kA
 	k.Sync()
 	return []int{nbio.VerifPendingBytes(r.A), b2i(nbio.VerifWAdded(r.A)), b2i(nbio.VerifClosed(r.A)), k.Room(), b2i(k.Registered()),
-		b2i(k.Mask&syscall.EPOLLOUT != 0), b2i(k.Armed), b2i(k.EdgeOut), b2i(k.NoSpace), -1, -1, len(k.S.Wire), b2i(nbio.VerifDialPending(r.A)), -1}
+		b2i(k.Mask&syscall.EPOLLOUT != 0), b2i(k.Armed), b2i(k.EdgeOut), b2i(k.NoSpace), -1, -1, len(k.S.Wire), b2i(nbio.VerifDialPending(r.A)), -1, -1}
 }
 
-var obsNames = []string{"q", "wadded", "closed", "room", "reg", "mout", "armed", "eout", "nospace", "pw", "owed", "sent", "dial", "dout"}
+var obsNames = []string{"q", "wadded", "closed", "room", "reg", "mout", "armed", "eout", "nospace", "pw", "owed", "sent", "dial", "prd", "dout"}
 
 func (r *simRun) mismatch(format string, a ...interface{}) {
 	if len(r.res.Mismatch) < 4 {
@@ -343,6 +344,7 @@ func (r *simRun) onRelease(t *verifsched.Thread, m *verifsched.Mutex) {
 	case "(*poller).readWriteLoop":
 		r.act("done")
 	case "(*Conn).ResetPollerEvent":
+		r.readDispatched(false) // the read pass in the poller ends with the re-arm
 		r.act("rearm")
 	case "(*poller).addConn":
 		r.act("reg")
@@ -397,6 +399,16 @@ func (r *simRun) origin(c *nbio.Conn) {
 	}
 }
 
+// readDispatched: the poller has dispatched the IN part of the event it holds (the model's ReadDispatch): the read pass
+// in the poller or a new read task (absorbed = false), or an event absorbed by the read task that is already running.
+func (r *simRun) readDispatched(absorbed bool) {
+	if !r.pendRead {
+		return
+	}
+	r.pendRead = false
+	r.act(fmt.Sprintf("rdisp %d", b2i(absorbed)))
+}
+
 // quiesce waits until the poller is parked with nothing deliverable and every application thread has ended, then
 // evaluates the stall predicate.
 func (r *simRun) quiesce(where string) {
@@ -405,11 +417,11 @@ func (r *simRun) quiesce(where string) {
 		return
 	}
 	if r.m != nil && r.mobs != nil && nbio.VerifClosed(r.A) == false {
-		if r.mobs[9] != 0 || r.mobs[10] != 0 {
-			r.mismatch("at quiescence (%s) the model's poller still owes pw=%d owed=%d", where, r.mobs[9], r.mobs[10])
+		if r.mobs[9] != 0 || r.mobs[10] != 0 || r.mobs[13] != 0 {
+			r.mismatch("at quiescence (%s) the model's poller still owes pw=%d owed=%d prd=%d", where, r.mobs[9], r.mobs[10], r.mobs[13])
 		}
-		if (r.mobs[13] == 1) != r.kA.OutReady() {
-			r.mismatch("at quiescence (%s) deliverable: model %d, emulated kernel %v", where, r.mobs[13], r.kA.OutReady())
+		if (r.mobs[14] == 1) != r.kA.OutReady() {
+			r.mismatch("at quiescence (%s) deliverable: model %d, emulated kernel %v", where, r.mobs[14], r.kA.OutReady())
 		}
 	}
 	if !nbio.VerifClosed(r.A) && nbio.VerifPendingBytes(r.A) > 0 && r.kA.Room() > 0 {
@@ -441,7 +453,22 @@ func (r *simRun) scenario() {
 	}
 	r.ep = verifsys.NewEpoll()
 	r.ep.Merge = c.Merge
-	r.ep.Block = verifsched.WaitUntil
+	r.ep.Block = func(cond func() bool) {
+		r.readDispatched(false) // the poller is back in epoll_wait: whatever it held has been dispatched
+		verifsched.WaitUntil(cond)
+	}
+	// the gate of Conn.AsyncRead (hook of the readpath overlay, called on the poller's goroutine right behind the atomic)
+	nbio.VerifReadHook = func(cn *nbio.Conn, op string, a, b int, ok bool) {
+		if cn != r.A || r.A == nil {
+			return
+		}
+		switch {
+		case op == "load" && a >= 2:
+			r.readDispatched(true)
+		case op == "cas" && ok:
+			r.readDispatched(a >= 1)
+		}
+	}
 	r.ep.OnDeliver = func(d verifsys.Delivered) {
 		if r.kA == nil || d.Fd != r.kA.S.Fd || r.A == nil {
 			return
@@ -450,6 +477,7 @@ func (r *simRun) scenario() {
 			r.res.OutEvents++
 		}
 		r.act(fmt.Sprintf("deliver %d %d", b2i(d.Events&syscall.EPOLLIN != 0), b2i(d.Spur)))
+		r.pendRead = d.Events&syscall.EPOLLIN != 0
 		if r.m != nil && (r.mobs[9] == 1) != (d.Events&syscall.EPOLLOUT != 0) {
 			r.mismatch("event %#x handed to the poller, but the model's OUT bit is %d", d.Events, r.mobs[9])
 		}
@@ -579,6 +607,7 @@ func (r *simRun) scenario() {
 		r.quiesce(fmt.Sprintf("round %d", i+1))
 	}
 	r.res.PeerGot = r.kA.PeerGot
+	nbio.VerifReadHook = nil
 	r.eng.Shutdown()
 	r.ep.Stop()
 }
